@@ -14,15 +14,7 @@ from vf.detsched import SimAbort
 EXC_NAMES = ['ValueError', 'KeyError', 'CustomError', 'CustomError2', 'OSError']
 
 
-class CustomError(Exception):
-    pass
-
-
-class CustomError2(Exception):
-    def __init__(self, a, b='b'):
-        super().__init__(a, b)
-        self.a = a
-        self.b = b
+from .workers import CustomError, CustomError2  # noqa: E402,F401
 
 
 def make_exc(name, key, site):
